@@ -127,9 +127,12 @@ def _check_dtype(case):
     exp["false_positive_rate"] = sum(k for k, t, p in zip(ws, yt, yp) if t == 0 and p == 1) / neg
     for name, want in exp.items():
         f = getattr(fm, name)
-        for which, a_t, a_p in (("predictions", yt, arr(yp)), ("labels and predictions", arr(yt), arr(yp))):
+        variants = [("predictions", yt, arr(yp), w), ("labels and predictions", arr(yt), arr(yp), w)]
+        if w and dt != "bool":
+            variants.append(("predictions and weights", yt, arr(yp), arr(w)))          # weights 1..3 are exact in every listed dtype; their total is not (uint8/int8: n >= 40)
+        for which, a_t, a_p, a_w in variants:
             try:
-                got = float(f(a_t, a_p, sample_weight=w) if w else f(a_t, a_p))
+                got = float(f(a_t, a_p, sample_weight=a_w) if w else f(a_t, a_p))
             except Exception as ex:
                 return (True, fp, (f"C14:{name}:raises:dtype", f"{name} raised {type(ex).__name__}: {ex} for {dt} {which}"[:300], {"case": [str(c) for c in case]}))
             if not S.close(got, want):
@@ -150,6 +153,6 @@ def run_bounded(rep):
     sizes = (4, 40, 300) if rep.tier == "quick" else (4, 40, 300, 3000)
     dcases = [(n, dt, max(1, int(n * fr)), wt, rep.seed + i) for i, (n, dt, fr, wt) in enumerate(itertools.product(sizes, DTYPES, (0.25, 0.75, 1.0), (False, True)))]
     run_cases(rep, "input_dtypes_rtc",
-              rule="n in %s rows x dtype of the arrays in %s x 25/75/100%% positive predictions x weights omitted / small integers: selection_rate, mean_prediction, TPR, FPR "
+              rule="n in %s rows x dtype of the arrays in %s x 25/75/100%% positive predictions x weights omitted / small integers (as a list and stored in that dtype): selection_rate, mean_prediction, TPR, FPR "
                    "against plain-Python arithmetic on the same values; distinct by full case" % (list(sizes), list(DTYPES)), bound=f"n <= {sizes[-1]}", cases=dcases,
               check_case=_check_dtype, exhaustive=False)
